@@ -10,6 +10,9 @@ A TEXT-PRESERVING wrapper around a known sentinel e (kind `same:<shape>`: `fmt.E
 wrapper type whose `Error()` is the inner one's, nested as `<shape>` says) IS that error for the origin
 (`errors.Is`) and is indistinguishable from it on the wire, so the statement applies to it as it stands: the caller
 must see e, and must classify it retryable exactly when the origin's own `ErrorIsRetryable` did.
+KEYS: the KV / lease methods carry a key / prefix / lease name chosen by the caller (6th token: `a<n>` = n ASCII bytes,
+`u<n>` = n bytes of UTF-8 with multi-byte and escaped characters; `-` for methods without one). The statement does not
+mention the key: the verdicts above are demanded for EVERY key, of any length, and say so in the SPEC reason.
 `%w`-wrapped registry errors whose text is CHANGED and fresh errors carrying a registry message are outside the
 reachable domain (no handler returns them): compared with the model only.
 -/
@@ -50,10 +53,36 @@ def originOf (kind arg : String) : Option GoErr :=
   | "opaque" => (hexToAscii arg).map .opaque
   | _ => none
 
-def render (x : GoErr) (origin : GoErr) : String :=
+/-- the key the harness sent, rebuilt from its token (the harness's `makeKey`) -/
+def keyUnits : List String := ["é", "\"", "\\", "\n", "\x00", "日", "<", "k"]
+
+def keyOf (tok : String) : Option String :=
+  if tok = "-" then some "" else
+  match (tok.drop 1).toString.toNat? with
+  | none => none
+  | some n =>
+    if tok.startsWith "a" then
+      some (String.ofList ((List.range n).map fun i => Char.ofNat ('a'.toNat + i % 26)))
+    else if tok.startsWith "u" then
+      let rec go (fuel i : Nat) (acc : String) : String :=
+        match fuel with
+        | 0 => acc
+        | fuel + 1 =>
+          let u := keyUnits.getD (i % keyUnits.length) "k"
+          if acc.utf8ByteSize + u.utf8ByteSize ≤ n then go fuel (i + 1) (acc ++ u)
+          else acc ++ String.ofList (List.replicate (n - acc.utf8ByteSize) 'x')
+      some (go (n + 1) 0 "")
+    else none
+
+def keyDesc (tok : String) : String :=
+  if tok = "-" then "" else s!" (request key of {(tok.drop 1).toString} bytes)"
+
+def render (x : GoErr) (origin : GoErr) (key : String) : String :=
   match x with
-  | .reg e => s!"id={e.name} retry={boolStr (retryable known x)} msgsame=-"
-  | .twirp c m => s!"id=tw:{c} retry={boolStr (retryable known x)} msgsame={boolStr (m == origin.msg)}"
+  | .reg e => s!"id={e.name} retry={boolStr (retryable known x)} msgsame=- kv=-"
+  | .twirp c m kv =>
+    let k := match kv with | none => "none" | some k => if k == key then "same" else "diff"
+    s!"id=tw:{c} retry={boolStr (retryable known x)} msgsame={boolStr (m == origin.msg)} kv={k}"
   | _ => "other"
 
 def field (rhs key : String) : String :=
@@ -75,39 +104,41 @@ def step (_ : Unit) (toks : List String) (rhs : String) : Unit × Verdict :=
   | ["regcount", n] =>
     if n.toNat? = some known.length then ((), .ok)
     else ((), .diff s!"extracted registry + externals have {known.length} entries (harness table out of date?)")
-  | ["rpc", method, kind, arg, oretry] =>
-    match originOf kind arg, parseBool oretry with
-    | some x, some oretry =>
+  | ["rpc", method, kind, arg, oretry, ktok] =>
+    match originOf kind arg, parseBool oretry, keyOf ktok with
+    | some x, some oretry, some key =>
       let how := howOf Gen.C14.handlers method
-      let got := acrossRPC known mapped how x
+      if (how == "WrapErrorKV") ≠ (ktok ≠ "-") then ((), .bad "a key token goes with the WrapErrorKV handlers exactly") else
+      let got := acrossRPC known mapped how key x
+      let kd := keyDesc ktok
       let id := field rhs "id"
       let retry := field rhs "retry"
       let sp : Option String :=
         if (sameShape kind).isSome then
           if id ≠ arg then
-            some s!"{arg} inside a text-preserving wrapper ({kind}) is not recognised by the caller as the same error (caller sees {id})"
+            some s!"{arg} inside a text-preserving wrapper ({kind}) is not recognised by the caller as the same error (caller sees {id}){kd}"
           else if retry ≠ boolStr oretry then
-            some s!"{arg} inside a text-preserving wrapper ({kind}): retryable at the origin = {oretry}, at the caller = {retry}"
+            some s!"{arg} inside a text-preserving wrapper ({kind}): retryable at the origin = {oretry}, at the caller = {retry}{kd}"
           else none
         else
         match kind with
         | "reg" =>
-          if id ≠ arg then some s!"{arg} is not recognised by the caller as the same error (caller sees {id})"
-          else if retry ≠ boolStr oretry then some s!"{arg}: retryable at the origin = {oretry}, at the caller = {retry}"
+          if id ≠ arg then some s!"{arg} is not recognised by the caller as the same error (caller sees {id}){kd}"
+          else if retry ≠ boolStr oretry then some s!"{arg}: retryable at the origin = {oretry}, at the caller = {retry}{kd}"
           else none
-        | "opaque" | "canceled" => if retry ≠ "false" then some "an unknown error became retryable at the caller" else none
+        | "opaque" | "canceled" => if retry ≠ "false" then some s!"an unknown error became retryable at the caller{kd}" else none
         | "deadline" =>
           if retry ≠ boolStr oretry then
-            some s!"context.DeadlineExceeded: retryable at the origin = {oretry}, at the caller = {retry}"
+            some s!"context.DeadlineExceeded: retryable at the origin = {oretry}, at the caller = {retry}{kd}"
           else none
         | _ => none
       match sp with
       | some w => ((), .spec w)
       | none =>
         if retryable known x ≠ oretry then ((), .diff s!"model: retryable at the origin = {retryable known x}")
-        else if render got x ≠ rhs then ((), .diff (render got x))
+        else if render got x key ≠ rhs then ((), .diff (render got x key))
         else ((), .ok)
-    | _, _ => ((), .bad "rpc args")
+    | _, _, _ => ((), .bad "rpc args")
   | _ => ((), .bad "unknown op")
 
 def main : IO Unit := runLoop () step
